@@ -58,7 +58,9 @@ ALPHABET = {
 }
 BORDERS = {"none": None, "thin": (0.35, "both"), "thick": (3.0, "both"), "oneside": (3.0, "one")}
 COORD_GRID = [None, 0.0, 100.5, 350.25, 1234.0, 100.1]
+LABEL_ATTRS = ["names", "caption", "caption_enabled", "name_enabled"]
 TEMPLATE = "<template>"
+FRESH = "<fresh>"
 _n = [0]
 
 
@@ -179,20 +181,13 @@ def apply_mods(doc, sheet, table, case, idx=0):
                 table.col_width(c, v)
                 exp[f"cw:{c}"] = v
 
-    if order == "borders-first":
-        do_borders()
-        do_sizes()
-    else:
-        do_sizes()
-        do_borders()
-        if border is not None:  # a later border supersedes the reported size: the set value is not judged live
-            exp = {}
-    if "headers" in vals:
+    def do_headers():
         hr, hc = min(vals["headers"][0], nr), min(vals["headers"][1], nc)
         table.num_header_rows = hr
         table.num_header_cols = hc
         exp["hr"], exp["hc"] = hr, hc
-    if "names" in vals:
+
+    def do_names():
         tn, sn = vals["names"]
         if idx:
             tn, sn = f"{tn}#{idx}", sn
@@ -201,17 +196,44 @@ def apply_mods(doc, sheet, table, case, idx=0):
         if idx == 0:
             sheet.name = sn
         exp["sheet"] = sn
-    if "caption" in vals:
+
+    def do_caption():
         table.caption = vals["caption"]
         exp["cap"] = vals["caption"]
-    if "caption_enabled" in vals:
+
+    def do_caption_enabled():
         v = vals["caption_enabled"] if idx == 0 else not vals["caption_enabled"]
         table.caption_enabled = v
         exp["cap_en"] = v
-    if "name_enabled" in vals:
+
+    def do_name_enabled():
         v = vals["name_enabled"] if idx == 0 else not vals["name_enabled"]
         table.table_name_enabled = v
         exp["name_en"] = v
+
+    def do_geometry():
+        if order == "borders-first":
+            do_borders()
+            do_sizes()
+        else:
+            do_sizes()
+            do_borders()
+            if border is not None:  # a later border supersedes the reported size: the set value is not judged live
+                for k in [k for k in exp if k.startswith(("rh:", "cw:"))]:
+                    del exp[k]
+        if "headers" in vals:
+            do_headers()
+
+    label_steps = {"names": do_names, "caption": do_caption, "caption_enabled": do_caption_enabled, "name_enabled": do_name_enabled}
+    # default sequence; the order family gives its own permutation of the label attributes
+    perm = case.get("perm") or [a for a in LABEL_ATTRS]
+    if case.get("geom", "before") != "after":
+        do_geometry()
+    for a in perm:
+        if a in vals:
+            label_steps[a]()
+    if case.get("geom", "before") == "after":
+        do_geometry()
     set_rows = set(rows) if "row_height" in vals and (order == "borders-first" or border is None) else set()
     return exp, set_rows
 
@@ -250,6 +272,13 @@ def build(case, query):
             if hit is not None:
                 i, s, t = hit
                 exp[i], set_rows[i] = apply_mods(doc, s, t, case)
+        return doc, exp, set_rows
+    if kind == "order" and case["doc"] != FRESH:
+        doc = Document(fixture_path(case["doc"]))
+        if pre:
+            geo(doc)
+        i, s, t = first_plain_table(doc)
+        exp[i], set_rows[i] = apply_mods(doc, s, t, case)
         return doc, exp, set_rows
     nr, nc = case.get("shape", [6, 6])
     doc = Document(num_rows=nr, num_cols=nc)
@@ -513,6 +542,58 @@ def gen_fixture_cases(tier, seed, fixtures):
                 yield {"kind": "fixture", "family": "fixture+S", "fixture": name, "q": q, "cycles": cycles, "S": full, "vals": rot_vals(full, 0, seed), "border": "thick"}, ncells
 
 
+def has_caption_object(doc, table):
+    """False when the table's caption is still the stand-in object of a document that never had one."""
+    m = doc._model
+    info = m.objects[m.table_info_id(table._table_id)]
+    return m.objects[info.super.caption.identifier].DESCRIPTOR.name != "StandinCaptionArchive"
+
+
+def order_docs(fixtures):
+    """Documents of the order family. Rule: test-1.numbers, plus the two smallest readable fixtures
+    (by cell count, then name) whose first ordinary table has no caption object yet, plus the smallest
+    one whose first ordinary table owns a caption object, plus a fresh document."""
+    names, with_cap = ["test-1.numbers"], None
+    for path, _n in sorted(fixtures, key=lambda pn: (pn[1], os.path.basename(pn[0]))):
+        name = os.path.basename(path)
+        if not path.startswith(FIXTURES) or name in names:
+            continue
+        doc = Document(path)
+        hit = first_plain_table(doc)
+        if hit is None or hit[2].num_rows < 2 or hit[2].num_cols < 2:
+            continue
+        if has_caption_object(doc, hit[2]):
+            with_cap = with_cap or name
+        elif len(names) < 3:
+            names.append(name)
+        if len(names) == 3 and with_cap:
+            break
+    return names + ([with_cap] if with_cap else []) + [FRESH]
+
+
+def gen_order_cases(tier, seed, docs):
+    """Every order (4! = 24) in which the four label attributes are set on a loaded / fresh document;
+    thorough: x the three geometry attributes set before / after the labels, x all four boolean pairs."""
+    import itertools
+
+    thorough = tier == "thorough"
+    cycles = 3 if thorough else 2
+    bools = [(True, False), (False, True)] + ([(True, True), (False, False)] if thorough else [])
+    n = 0
+    for doc in docs:
+        for perm in itertools.permutations(LABEL_ATTRS):
+            for cap_en, name_en in bools:
+                for geom in (("before", "after") if thorough else ("none",)):
+                    n += 1
+                    vals = rot_vals(0b0001000 | 0b0010000, n, seed)
+                    vals["caption_enabled"], vals["name_enabled"] = cap_en, name_en
+                    if geom != "none":
+                        vals.update(rot_vals(0b0000111, n, seed))
+                    for q in ("none", "all"):
+                        yield {"kind": "order", "family": "order", "doc": doc, "perm": list(perm), "geom": geom if geom != "none" else "before",
+                               "vals": dict(vals), "border": "none", "q": q, "cycles": cycles}
+
+
 def work(cases):
     part = Part()
     keys = []
@@ -537,10 +618,11 @@ def work(cases):
         keys.append((fam, info.get("g0"), case.get("border", "none"), case["q"], case.get("order", "")))
         kinds = sorted({i["mechanism"] + ":" + i.get("class", i.get("attr", "")) for i, _ in res})
         part.outcome("held" if not res else "|".join(kinds))
-        label = case.get("fixture") or f"{case['kind']} S={case.get('S', 0):07b} border={case.get('border', 'none')}"
+        label = case.get("fixture") or (f"{case['doc']} order={'>'.join(case['perm'])} geometry={case['geom'] if any(a in case['vals'] for a in ATTRS[:3]) else 'unset'}" if case["kind"] == "order"
+                                        else f"{case['kind']} S={case.get('S', 0):07b} border={case.get('border', 'none')}")
         for ident, detail in res:
             part.fail(ident, f"[{label}] {detail}", case)
-        if fam in ("subset", "fixture"):
+        if fam in ("subset", "fixture", "order"):
             part.sample({"case": {k: v for k, v in case.items() if k != "vals"}, "outcome": kinds or "held"})
     d = part.dump()
     d["keys"] = keys
@@ -569,6 +651,8 @@ def main():
     fresh = list(gen_cases(args.tier, args.seed))
     fixtures = readable_fixtures()
     fx = sorted(gen_fixture_cases(args.tier, args.seed, fixtures), key=lambda cn: -cn[1])
+    odocs = order_docs(fixtures)
+    fresh += list(gen_order_cases(args.tier, args.seed, odocs))
     tasks = [[c] for c, _ in fx]
     chunk = 8
     tasks += [fresh[i:i + chunk] for i in range(0, len(fresh), chunk)]
@@ -583,6 +667,11 @@ def main():
     run.floor("every generated case was executed", c["evaluations"] == len(fresh) + len(fx))
     run.floor(">= 60 readable fixtures, each unqueried and queried", c["cases_fixture"] >= 120 and c["cases_fixture"] == 2 * len(fixtures))
     run.floor("all 36 coordinate pairs placed with add_table(x, y)", c["cases_coords"] == 36 * 4)
+    n_ord = sum(1 for x in fresh if x["family"] == "order")
+    run.floor("order family: all 24 orders of the four label attributes on test-1.numbers, >= 2 further loaded documents without a caption object and a fresh document",
+              "test-1.numbers" in odocs and FRESH in odocs and len(odocs) >= 4 and c["cases_order"] == n_ord
+              and n_ord == len(odocs) * 24 * (16 if args.tier == "thorough" else 4))
+    run.extra["order_family_documents"] = odocs
     run.floor(">= 100 cases in which a bordered row's reported height was written back", c["cases_with_bordered_row_written_back"] >= 100)
     run.floor(">= 100 unqueried cases whose tables have unequal row heights (stored heights that a reset would lose)", c["unqueried_cases_with_unequal_row_heights"] >= 100)
     run.floor(">= 50 distinct initial geometry snapshots", len({k[1] for k in keys}) >= 50)
